@@ -57,6 +57,31 @@ def find_body(text, anchor_re, nth=0, expect_count=None):
 
 
 # R4 / R5 / R6 / R7 and friends: rules applied to every body (never must-fire)
+def split_args(text):
+    out, depth, cur = [], 0, ''
+    for c in text:
+        if c in '([{':
+            depth += 1
+        elif c in ')]}':
+            depth -= 1
+        if c == ',' and depth == 0:
+            out.append(cur.strip())
+            cur = ''
+        else:
+            cur += c
+    out.append(cur.strip())
+    return out
+
+
+def _point_decl(m):
+    """R12: `point_t p(a, b);` (constructor syntax) -> member-wise initialisation"""
+    a = split_args(m.group(2))
+    if len(a) != 2:
+        raise ExtractError('point_t constructor with %d arguments' % len(a))
+    n = m.group(1)
+    return 'point_t %s; %s.x = (%s); %s.y = (%s);' % (n, n, a[0], n, a[1])
+
+
 BUILTIN_T = r'(?:u?int(?:8|16|32|64|max)_t|double|float|int|bool|size_t|ptrdiff_t)'
 COMMON_RULES = [
     ('R4.auto_from_cast', r'\bauto\s+const\s+(\w+)\s*=\s*static_cast\s*<\s*([\w:]+)\s*>\s*\(', r'const \2 \1 = (\2)(', False),
@@ -75,6 +100,7 @@ COMMON_RULES = [
     ('R3.this_arrow', r'\bthis->', 'self->', False),
     ('R4.typename', r'\btypename\s+', '', False),
     ('R4.auto_const', r'\bauto\s+const\b', 'AUTO_CONST', False),
+    ('R12.point_ctor_decl', r'\bpoint_t\s+(\w+)\s*\(([^;{}]+)\);', _point_decl, False),
 ]
 
 
